@@ -283,19 +283,18 @@ def run(ctx):
         "cases_skipped_after_repeated_hangs": st["skipped"],
         "vm_compute_crosschecked_cases": nvm,
         "clauses": {"feasible + minimal cost": "raw algorithm, all inputs of the domain, no size bound: every returned plan is feasible and of minimum "
-                                               "cost (c13_ssp_optimal); with a round budget >= big_fuel for updateTree a plan IS returned (termination of "
-                                               "every loop, c13_sspF_total); Ssp.v's own budget n^3+2n+1 is not sufficient in general "
-                                               "(c13_tree_fuel_insufficient), so for the extracted model: optimal plan or FAIL FUEL 483 "
-                                               "(c13_ssp_returns_or_tree_fuel_partial); checker proved sound (c13_checked_solver_sound); bounded theorem kept; "
+                                               "cost (c13_ssp_optimal) and a plan IS returned: every loop ends within the budgets of Ssp.v, no assertion, no empty "
+                                               "top() (c13_ssp_returns; updateTree's budget big_fuel proved sufficient, the earlier cubic budget refuted by "
+                                               "c13_tree_fuel_insufficient, whose exponential family is in the corpus); checker proved sound "
+                                               "(c13_checked_solver_sound); bounded theorem kept; "
                                                "every case of the run validated (model plan and C++ plan certified)",
                     "assignment": "c13_to_assignment_argmax proved for all plans; exact tie on the C++ plan",
                     "increaseCapacity": "c13_increase_capacity_post proved; exact tie"},
     })
     return ctx.finish(LEVEL, cov, [
         "model Ssp.v is hand-written; tied to transportation.cpp relationally (equal cost, certified C++ plan) on the cases of this run",
-        "termination of updateTree is proved with the pseudo-polynomial round budget big_fuel (SspF.v); the extracted model keeps Ssp.v's budget "
-        "n^3+2n+1, which a 12-sink family exceeds (c13_tree_fuel_insufficient; the C++ needs 2^(full sinks) rounds there and still returns the optimum); "
-        "such inputs are not generated",
+        "termination of updateTree is proved with a pseudo-polynomial round budget (big_fuel, the one Ssp.v uses); its worst case is exponential in "
+        "the number of sinks, in the model and in the C++ (family of c13_tree_fuel_insufficient, K <= 12 in the corpus): running time is not part of C13",
         "machine-integer overflow (CostType = int) is outside this model (ideal Z); costsFromIntegers (float scaling) is not modelled: the model "
         "receives the C++'s scaled costs",
         "problems with total demand > total capacity are outside C13 and are not generated"])
